@@ -193,7 +193,8 @@ structure ListRequest where
   /-- "from" game name and the queried game name -/
   gameName : Bytes
   queryGame : Bytes
-  challenge : Bytes
+  /-- the 8-byte client challenge (the cipher's per-request key material) -/
+  challenge : Vector UInt8 8
   filter : Bytes
   rawFields : List Bytes
   /-- the 32-bit options word: 0 = plain list (the game), 1 = list with fields (gslist) -/
@@ -207,7 +208,7 @@ def joinFields : List Bytes → Bytes
 
 /-- everything after the two length bytes -/
 def reqBody (r : ListRequest) : Bytes :=
-  r.header ++ (r.gameName ++ 0 :: (r.queryGame ++ 0 :: (r.challenge ++ (r.filter ++ 0 ::
+  r.header ++ (r.gameName ++ 0 :: (r.queryGame ++ 0 :: (r.challenge.toList ++ (r.filter ++ 0 ::
     (0x5c :: (joinFields r.rawFields ++ 0 :: [0, 0, 0, if r.withFields then 1 else 0]))))))
 
 /-- the request on the wire: 16-bit big-endian total length, then the body -/
@@ -220,12 +221,11 @@ def NulFree (b : Bytes) : Prop := ∀ x ∈ b, x ≠ 0
 instance (b : Bytes) : Decidable (NulFree b) := by unfold NulFree; exact inferInstance
 
 /-- well-formed: 7 header bytes, C strings without NUL, field names without NUL or backslash,
-an 8-byte challenge, and a total length that fits the 16-bit prefix -/
+and a total length that fits the 16-bit prefix -/
 structure WfReq (r : ListRequest) : Prop where
   header : r.header.length = 7
   gameName : NulFree r.gameName
   queryGame : NulFree r.queryGame
-  challenge : r.challenge.length = 8
   filter : NulFree r.filter
   fields : ∀ f ∈ r.rawFields, ∀ x ∈ f, x ≠ 0 ∧ x ≠ 0x5c
   length : (reqBody r).length + 2 < 65536
